@@ -3,6 +3,7 @@ package drive
 import (
 	"context"
 	"fmt"
+	"io"
 	"os"
 	"path/filepath"
 	"sort"
@@ -10,6 +11,11 @@ import (
 	"sync"
 	"testing"
 	"time"
+
+	"github.com/ory/x/configx"
+	"github.com/ory/x/logrusx"
+	"github.com/ory/x/watcherx"
+	"github.com/spf13/pflag"
 
 	"github.com/ory/keto/internal/driver"
 	"github.com/ory/keto/internal/driver/config"
@@ -27,6 +33,9 @@ type watchEv struct {
 }
 
 func nsState(nm namespace.Manager) string {
+	if nm == nil {
+		return "err"
+	}
 	nn, err := nm.Namespaces(context.Background())
 	if err != nil {
 		return "err"
@@ -55,6 +64,18 @@ func streamWatch(t *testing.T, o *Out) {
 	r := newRand()
 	n := envInt("VERIF_N", 12)
 	names := []string{"A", "B", "C", "D", "E"}
+	// fixed histories first: a valid version, then invalid ones, with an unrelated hot reload of the
+	// configuration file after every version (the witness of the repaired defect F-opl-config-reload:
+	// the OPL watcher used to be rebuilt by every configuration reload and lost its last good version)
+	for _, kind := range []string{"o", "l"} {
+		evs := []watchEv{{file: 0, valid: true, names: []string{"A0"}}, {file: 0, valid: false}, {file: 0, valid: false}, {file: 0, valid: true, names: []string{"B0"}}, {file: 0, valid: false}}
+		if kind == "o" {
+			evs = append(evs, watchEv{file: 1, valid: true, names: []string{"C1"}})
+		}
+		for salt := 0; salt < 2; salt++ {
+			runWatchCase(t, o, fmt.Sprintf("wreload-%s-%d", kind, salt), kind, evs, 0, 0, true, salt)
+		}
+	}
 	for i := 0; i < n; i++ {
 		kind := "o"
 		if i%2 == 1 {
@@ -88,7 +109,9 @@ func streamWatch(t *testing.T, o *Out) {
 		if r.Intn(2) == 0 {
 			npre = 1 + r.Intn(len(evs)-1)
 		}
-		runWatchCase(t, o, fmt.Sprintf("w%d", i), kind, evs, r.Intn(3), npre)
+		// every third case: the configuration comes from a keto.yml that is itself hot-reloaded
+		// (an unrelated key changes) between the versions of the namespace files
+		runWatchCase(t, o, fmt.Sprintf("w%d", i), kind, evs, r.Intn(3), npre, i%3 == 2, r.Intn(1000))
 	}
 }
 
@@ -107,16 +130,54 @@ func dedup(xs []string) []string {
 // The first npre versions are written BEFORE the watcher starts (initial load of a
 // directory that already has files); the model sees them collapsed to the last
 // version per file, in file-name order.
-func runWatchCase(t *testing.T, o *Out, id, kind string, evs []watchEv, extIdx int, npre int) {
+func runWatchCase(t *testing.T, o *Out, id, kind string, evs []watchEv, extIdx int, npre int, viaFile bool, salt int) {
 	base := t.TempDir()
 	dir := filepath.Join(base, "ns")
 	if err := os.Mkdir(dir, 0o755); err != nil {
 		t.Fatal(err)
 	}
-	reg := driver.NewSqliteTestRegistry(t, false)
-	quiet(reg)
-	ctx := context.Background()
-	var nm namespace.Manager
+	ctx, cancelCtx := context.WithCancel(context.Background())
+	defer cancelCtx()
+	var reg *driver.RegistryDefault
+	var fileCfg *config.Config
+	cfgFile := filepath.Join(base, "keto.yml")
+	cfgReloaded := make(chan struct{}, 64)
+	depthNow := 5
+	writeCfg := func() {
+		nsPart := "namespaces: file://" + dir + "\n"
+		if kind == "o" {
+			nsPart = "namespaces:\n  location: file://" + dir + "\n"
+		}
+		content := fmt.Sprintf("dsn: memory\n%slimit:\n  max_read_depth: %d\n", nsPart, depthNow)
+		tmp := filepath.Join(base, ".keto.yml.tmp")
+		if err := os.WriteFile(tmp, []byte(content), 0o644); err != nil {
+			t.Fatal(err)
+		}
+		if err := os.Rename(tmp, cfgFile); err != nil {
+			t.Fatal(err)
+		}
+	}
+	if viaFile {
+		writeCfg()
+	} else {
+		reg = driver.NewSqliteTestRegistry(t, false)
+		quiet(reg)
+	}
+	var nmFixed namespace.Manager
+	// the namespace manager as a request gets it: from the configuration, every time
+	getNM := func() namespace.Manager {
+		if viaFile {
+			if fileCfg == nil {
+				return nil
+			}
+			m, err := fileCfg.NamespaceManager()
+			if err != nil {
+				return nil
+			}
+			return m
+		}
+		return nmFixed
+	}
 	var mu sync.Mutex
 	seen := map[string]bool{}
 	var order []string
@@ -124,17 +185,36 @@ func runWatchCase(t *testing.T, o *Out, id, kind string, evs []watchEv, extIdx i
 	var wg sync.WaitGroup
 	start := func() {
 		var err error
-		if kind == "o" {
-			err = reg.Config(ctx).Set(config.KeyNamespaces, map[string]any{"location": "file://" + dir})
+		if viaFile {
+			l := logrusx.New("verif", "0")
+			l.Logger.SetOutput(io.Discard)
+			fileCfg, err = config.NewDefault(ctx, pflag.NewFlagSet("verif", pflag.ContinueOnError), l,
+				configx.WithConfigFiles(cfgFile),
+				configx.AttachWatcher(func(watcherx.Event, error) {
+					select {
+					case cfgReloaded <- struct{}{}:
+					default:
+					}
+				}))
+			if err != nil {
+				t.Fatal(err)
+			}
+			if _, err = fileCfg.NamespaceManager(); err != nil {
+				t.Fatal(err)
+			}
 		} else {
-			err = reg.Config(ctx).Set(config.KeyNamespaces, "file://"+dir)
-		}
-		if err != nil {
-			t.Fatal(err)
-		}
-		nm, err = reg.Config(ctx).NamespaceManager()
-		if err != nil {
-			t.Fatal(err)
+			if kind == "o" {
+				err = reg.Config(ctx).Set(config.KeyNamespaces, map[string]any{"location": "file://" + dir})
+			} else {
+				err = reg.Config(ctx).Set(config.KeyNamespaces, "file://"+dir)
+			}
+			if err != nil {
+				t.Fatal(err)
+			}
+			nmFixed, err = reg.Config(ctx).NamespaceManager()
+			if err != nil {
+				t.Fatal(err)
+			}
 		}
 		// sampler
 		wg.Add(1)
@@ -146,7 +226,7 @@ func runWatchCase(t *testing.T, o *Out, id, kind string, evs []watchEv, extIdx i
 					return
 				default:
 				}
-				s := nsState(nm)
+				s := nsState(getNM())
 				mu.Lock()
 				if !seen[s] {
 					seen[s] = true
@@ -227,19 +307,37 @@ func runWatchCase(t *testing.T, o *Out, id, kind string, evs []watchEv, extIdx i
 		if ei == len(evs)-1 {
 			quiet = 400 * time.Millisecond
 		}
-		last, since := nsState(nm), time.Now()
-		deadline := time.Now().Add(3 * time.Second)
-		for time.Now().Before(deadline) {
-			time.Sleep(5 * time.Millisecond)
-			cur := nsState(nm)
-			if cur != last {
-				last, since = cur, time.Now()
-			} else if time.Since(since) > quiet {
-				break
+		settle := func(quiet time.Duration) {
+			last, since := nsState(getNM()), time.Now()
+			deadline := time.Now().Add(3 * time.Second)
+			for time.Now().Before(deadline) {
+				time.Sleep(5 * time.Millisecond)
+				cur := nsState(getNM())
+				if cur != last {
+					last, since = cur, time.Now()
+				} else if time.Since(since) > quiet {
+					break
+				}
 			}
 		}
+		settle(quiet)
+		// an unrelated hot reload of the configuration file (another key changes): the visible
+		// namespaces must not move
+		if viaFile && (salt+ei)%2 == 0 {
+			for len(cfgReloaded) > 0 {
+				<-cfgReloaded
+			}
+			depthNow = 3 + (depthNow+1)%5
+			writeCfg()
+			select {
+			case <-cfgReloaded:
+			case <-time.After(2 * time.Second):
+			}
+			o.Count("unrelated-config-reload")
+			settle(quiet)
+		}
 	}
-	final := nsState(nm)
+	final := nsState(getNM())
 	close(stop)
 	wg.Wait()
 	mu.Lock()
